@@ -46,6 +46,10 @@ def mk_cases(ctx):
         other = PALETTE[i % len(PALETTE)]
         cases.append([("a\n\tb", a), ("c", {}), ("", a), ("Ｅé", other)])
     ctx.exhaustive.append("all 59049 attribute dicts on a four-run string")
+    # sizes beyond 256 and repeated equal runs (identity-vs-equality slips, caches keyed by value)
+    long_text = "".join("abcdefghij"[i % 10] for i in range(300)) + "\n" + "m0[;" * 5
+    for a in list(itertools.islice(all_atts(), 0, None, 1301)):
+        cases.append([(long_text, a), ("-", {"fg": 31}), (long_text, a), ("-", {"fg": 31})] + [("x", a)] * 260)
     r = ctx.rng
     pool = list(itertools.islice(all_atts(), 0, None, 97))
     alphabet = "ab \n\t\rＥ́x~[m;0"
